@@ -347,7 +347,9 @@ func (f *Fam) genTx1(r *rand.Rand, s *Snapshot) string {
 		fields = fmt.Sprintf("from=%s amt=%d", addr, pick(r, 1, 100, 1000, 50000000, 50000001))
 	default:
 		kind = "upgrade"
-		fields = fmt.Sprintf("from=%s h=%d ver=%s", addr, pick(r, 0, 100), []string{"1.0", "2.0"}[r.Intn(2)])
+		// an upgrade height the chain will not reach: at that height the gov module's BeginBlock stops the process
+		// for the upgrade (by design), which is not a behaviour the line protocol can observe
+		fields = fmt.Sprintf("from=%s h=%d ver=%s", addr, pick(r, 0, 1000000, 5000000), []string{"1.0", "2.0"}[r.Intn(2)])
 	}
 	// who signs: usually the declared signer; sometimes another key (attack)
 	if r.Intn(25) == 0 {
@@ -402,13 +404,13 @@ func (f *Fam) Gen(r *rand.Rand, i int) string {
 			}
 			return fmt.Sprintf("award %s %d", a, pick(r, 1, 1000, 1000000, 0))
 		}
-		if r.Intn(25) == 0 && len(s.Vals) > 0 {
+		if r.Intn(14) == 0 && len(s.Vals) > 0 {
 			var l []string
 			for a := range s.Vals {
 				l = append(l, a)
 			}
 			sort.Strings(l)
-			return fmt.Sprintf("burn %s %d", l[r.Intn(len(l))], pick(r, 10000000000000000, 500000000000000000, 1000000000000000000, 1, 0))
+			return fmt.Sprintf("burn %s %d", l[r.Intn(len(l))], pick(r, 10000000000000000, 500000000000000000, 1000000000000000000, 1500000000000000000, 600000000000000000, 1, 0))
 		}
 		return f.genTx(r, s)
 	case 4:
